@@ -25,4 +25,51 @@ KnownValLC(Active, ev, P) ==
     /\ ev.args[1][1].v % (IF ev.args[2][1].v < 0 THEN -ev.args[2][1].v ELSE ev.args[2][1].v) # 0
     /\ Len(ev.res) = 1 /\ ev.res[1].v = 0 /\ ~ev.res[1].w
     /\ Note("C04-truediv-int-errorpath", <<ev.args[1][1].v, ev.args[2][1].v>>)
+
+(* ----------------------------------------------------------------------- *)
+(* C02 (uniqueness).  I is a Soundness instance, Alt the sequence of the   *)
+(* result values under the adversarial witness.                            *)
+
+(* C02-bitwise-const-free: x & c, x | c, x ^ c with a plain integer c      *)
+(* return a fresh private value with no constraint at all.                 *)
+KU_BitwiseConst(Active, I) ==
+    /\ IsActive(Active, "C02-bitwise-const-free")
+    /\ I.op \in {"and", "or", "xor"} /\ I.kinds \in {"Sc", "cS"}
+    /\ I.ncons = 0 /\ Len(I.res) = 1
+    /\ Note("C02-bitwise-const-free", <<I.op, I.kinds>>)
+
+(* C02-divmod-quotient-free: floor division / modulo constrain             *)
+(* quo*d = a - rem and 0 <= rem < d, but not the range of quo: for every   *)
+(* r in 0..d-1 the pair ((a-r)/d in the field, r) is accepted.  The same   *)
+(* gadget sits under >> by a secret and under fixed-point * / // %.        *)
+(* Num, Den: the dividend and divisor the gadget sees; Scale: factor       *)
+(* applied to the quotient afterwards (2^r for fixed-point //).            *)
+QuoOK(q, r, Num, Den, Scale, P) == (q * Den) % P = ((Num - r) * Scale) % P
+
+KU_DivShape(I, Alt, Num, Den, Scale, what, P) ==
+    /\ Den > 0
+    /\ CASE what = "quo" -> Len(Alt) = 1 /\ \E r \in 0..(Den - 1) : QuoOK(Alt[1], r, Num, Den, Scale, P)
+          [] what = "rem" -> Len(Alt) = 1 /\ Alt[1] \in 0..(Den - 1)
+          [] what = "both" -> Len(Alt) = 2 /\ Alt[2] \in 0..(Den - 1) /\ QuoOK(Alt[1], Alt[2], Num, Den, Scale, P)
+
+Pow2(n) == IF n <= 0 THEN 1 ELSE 2 ^ n
+
+KU_DivMod(Active, I, Alt, P) ==
+    /\ IsActive(Active, "C02-divmod-quotient-free")
+    /\ LET R == Pow2(I.resolution) IN
+       \/ I.op = "floordiv" /\ I.kinds \in {"SS", "Sc", "cS"} /\ KU_DivShape(I, Alt, I.a, I.b, 1, "quo", P)
+       \/ I.op = "mod"      /\ I.kinds \in {"SS", "Sc", "cS"} /\ KU_DivShape(I, Alt, I.a, I.b, 1, "rem", P)
+       \/ I.op = "divmod"   /\ I.kinds \in {"SS", "Sc", "cS"} /\ KU_DivShape(I, Alt, I.a, I.b, 1, "both", P)
+       \/ I.op = "rshift"   /\ I.kinds \in {"SS", "cS"} /\ I.b >= 0 /\ KU_DivShape(I, Alt, I.a, Pow2(I.b), 1, "quo", P)
+       \/ I.op = "fxp_mul"      /\ KU_DivShape(I, Alt, I.a * I.b, R, 1, "quo", P)
+       \/ I.op = "fxp_truediv"  /\ KU_DivShape(I, Alt, I.a * R, I.b, 1, "quo", P)
+       \/ I.op = "fxp_floordiv" /\ KU_DivShape(I, Alt, I.a, I.b, R, "quo", P)
+       \/ I.op = "fxp_mod"      /\ KU_DivShape(I, Alt, I.a, I.b, 1, "rem", P)
+    /\ Note("C02-divmod-quotient-free", <<I.op, I.kinds>>)
+
+KnownUnique(Active, I, Alt, P) == KU_BitwiseConst(Active, I) \/ KU_DivMod(Active, I, Alt, P)
+
+(* C03 (enforcement) *)
+KnownEnforced(Active, I, P) == FALSE
+KnownSameRel(Active, I, P) == FALSE
 =============================================================================
